@@ -12,6 +12,7 @@ pub open spec fn boundary(s: Seq<u8>, i: int) -> bool { 0 <= i <= s.len() && (i 
 pub open spec fn str_wf(s: Seq<u8>) -> bool { forall|i: int| #![trigger s[i]] 0 <= i && i + 1 < s.len() && s[i] < 0x80 ==> !cont(s[i + 1]) }
 pub open spec fn occurs_at(s: Seq<u8>, p: Seq<u8>, i: int) -> bool { 0 <= i && i + p.len() <= s.len() && s.subrange(i, i + p.len()) == p }
 pub open spec fn occurs(s: Seq<u8>, c: u8) -> bool { exists|j: int| 0 <= j < s.len() && s[j] == c }
+pub open spec fn first_occ_at(s: Seq<u8>, p: Seq<u8>, i: int) -> bool { occurs_at(s, p, i) && forall|j: int| 0 <= j < i ==> !occurs_at(s, p, j) }
 pub open spec fn ascii_ws(x: u8) -> bool { x == 0x20 || (0x09 <= x && x <= 0x0D) }
 pub open spec fn lower1(x: u8) -> u8 { if 0x41 <= x && x <= 0x5A { (x + 32) as u8 } else { x } }
 pub open spec fn lower(s: Seq<u8>) -> Seq<u8> { Seq::new(s.len(), |i: int| lower1(s[i])) }
@@ -74,7 +75,7 @@ impl VStr {
     #[verifier::external_body]
     pub fn find(&self, p: &VStr) -> (r: Option<usize>)
         ensures self@.len() <= isize::MAX,
-                r is Some ==> occurs_at(self@, p@, r->Some_0 as int) && (forall|j: int| 0 <= j < r->Some_0 ==> !occurs_at(self@, p@, j)),
+                r is Some ==> occurs_at(self@, p@, r->Some_0 as int) && (forall|j: int| 0 <= j < r->Some_0 ==> !occurs_at(self@, p@, j)) && first_occ_at(self@, p@, r->Some_0 as int),
                 r is None ==> forall|j: int| !occurs_at(self@, p@, j)
     { unimplemented!() }
     #[verifier::external_body]
@@ -155,7 +156,6 @@ impl VxDisp for u16 { open spec fn disp(&self) -> Seq<u8> { dec(*self) } #[verif
 pub fn vx_as_bytes<'a>(s: &'a VStr) -> (r: &'a [u8]) ensures r@ == s@ { s.as_bytes() }
 
 // ---- pieces of a string: str::split / split_whitespace and the iterator idioms used on them ----
-pub open spec fn first_occ_at(s: Seq<u8>, p: Seq<u8>, i: int) -> bool { occurs_at(s, p, i) && forall|j: int| 0 <= j < i ==> !occurs_at(s, p, j) }
 pub open spec fn first_occ(s: Seq<u8>, p: Seq<u8>) -> int { if exists|i: int| first_occ_at(s, p, i) { choose|i: int| first_occ_at(s, p, i) } else { -1 } }
 // str::split(pattern) for a non-empty pattern: cut at every occurrence, left to right, non-overlapping; n occurrences give n+1 pieces
 pub open spec fn split_spec(s: Seq<u8>, p: Seq<u8>) -> Seq<Seq<u8>> decreases s.len() {
